@@ -21,6 +21,9 @@ var (
 
 // Register is used to set a custom codec builder for a type
 func Register(typ reflect.Type, f CodecBuildFunc) {
+	if verifOn {
+		simYield("registry.write")
+	}
 	registryMutex.Lock()
 	defer registryMutex.Unlock()
 	registry[typ] = f
@@ -35,6 +38,9 @@ func buildCodec(schema Schema, typ reflect.Type, omit bool) (Codec, error) {
 			return buildPointerCodec(schema, typ)
 		}
 
+		if verifOn {
+			simYield("registry.read")
+		}
 		registryMutex.RLock()
 		cf, ok := registry[typ]
 		registryMutex.RUnlock()
